@@ -9,6 +9,7 @@ import (
 
 func main() {
 	run := ev.Start("C05")
+	defer run.Guard()
 	run.Rule("case = (generation, registered tree with PRNG method/finder/action subsets over a fixed shape [collection, sub-collection, sub-simple, simple, simple/sub-collection, action set], mounting in {bare handler, ServeMux, path prefix, prefix+ServeMux}, " +
 		"0-3 filters {passing, context-adding, failing}, request from the product verb x method header {absent, 13 names, unknown} x 22 path shapes x q x ids x action x tunnelled); each request is sent over loopback HTTP and the observed " +
 		"(status, invocation events, filter trace) is compared with an independent reference decision table; the full product is enumerated for the primary mounting/filter configuration of each tree, strided elsewhere. " +
